@@ -17,7 +17,7 @@ use std::collections::BTreeSet;
 const STREAM: u64 = 15;
 
 pub fn run(ctx: &Ctx) -> Report {
-    let n = ctx.cases(15_000, 500_000);
+    let n = ctx.cases(60_000, 3_000_000);
     let local = run_cases(ctx, n, |case, l| one_case(ctx, case, l));
     let mut rep = Report::new(
         "exploration",
